@@ -122,8 +122,9 @@ def build_scenarios(rng, q):
     return scs
 
 
-def digest_obs(e, fdmap):
-    """observation record with pipe descriptor numbers replaced by their order of appearance"""
+def digest_obs(e, fdmap, mask=True):
+    """observation record with pipe descriptor numbers replaced by their order of appearance (mask=False: raw values;
+    the descriptor map is still advanced so that both variants number the descriptors alike)"""
     o = e.get("obs", {})
     res = dict(e.get("res", {}))
     out = {}
@@ -134,10 +135,11 @@ def digest_obs(e, fdmap):
     for w, r in ends:
         norm_fd(r)
         norm_fd(w)
-    fds = set(fdmap)
-    # registers / results / memory that legitimately carry a descriptor number are masked
-    regs = {k: ("fd%d" % fdmap[v] if v in fds and v >= 1024 else v) for k, v in o.get("regs", {}).items()}
-    out["regs"] = json.dumps(regs, sort_keys=True)
+    fds = set(fdmap) if mask else set()
+    # registers / results / memory that legitimately carry a descriptor number are masked (one key per register, so that a
+    # register can be compared raw where the raw values agree - see pair_events)
+    for k, v in o.get("regs", {}).items():
+        out["reg:" + k] = "fd%d" % fdmap[v] if v in fds and v >= 1024 else str(v)
     out["fl"] = str(o.get("fl"))
     out["xmm"] = hashlib.sha1(json.dumps(o.get("xmm", {}), sort_keys=True).encode()).hexdigest()
     out["seg"] = f"{o.get('fs')},{o.get('gs')}"
@@ -151,8 +153,9 @@ def digest_obs(e, fdmap):
                 if fd >= 1024:
                     b = b.replace(fd.to_bytes(8, "little"), b"\xfd" * 8)
             d = list(b)
-        mem.append([a["start"], a["len"], a["prot"], a["name"], hashlib.sha1(bytes(d)).hexdigest() if d is not None else "big:%d" % a["dlen"]])
-    out["mem"] = json.dumps(mem)
+        mem.append(a["start"])
+        out["mem:%d" % a["start"]] = json.dumps([a["len"], a["prot"], a["name"], hashlib.sha1(bytes(d)).hexdigest() if d is not None else "big:%d" % a["dlen"]])
+    out["mem"] = json.dumps(mem)          # the list of area starts; contents per area under mem:<start>
     out["exec"] = json.dumps({k: o.get(k) for k in ("finished", "count", "max", "code_end", "stack_top", "rip", "running")})
     out["trace"] = json.dumps([o.get("trace"), o.get("call_stack")])
     out["sys"] = json.dumps([o.get("brk_start"), o.get("brk_len"), sorted([fdmap.get(w), fdmap.get(r)] for w, r in ends),
@@ -181,6 +184,12 @@ def pair_events(order, by, suffix_a, suffix_b, pair, judge_from):
                 out.append({"sc": base, "i": i, "pair": pair, "a": {"present": str(i < len(ea))}, "b": {"present": str(i < len(eb))}})
                 break
             da, db = digest_obs(ea[i], fa), digest_obs(eb[i], fb)
+            # a value is masked as "descriptor k" when it EQUALS a descriptor number of its machine - which a buffer address or a
+            # counter does once in 65 536 draws, in one machine only.  Where the RAW values of a field agree the field agrees.
+            ra, rb = digest_obs(ea[i], dict(fa), mask=False), digest_obs(eb[i], dict(fb), mask=False)
+            for kk in list(da):
+                if kk in ra and kk in rb and ra[kk] == rb[kk]:
+                    da[kk] = db[kk] = ra[kk]
             if i < judge_from.get(base, 0):
                 # before every randomised register has been written only the call results are comparable
                 da, db = {"res": da["res"]}, {"res": db["res"]}
